@@ -9,6 +9,12 @@ CLAIMED = {
     design_ref="DESIGN.md §5.4",
     note="Trusted: Coq kernel + VM; Model/M_Crop.v transcription; astropy's SlicedLowLevelWCS fill-in of dropped world values, world-to-pixel inversion and floor(x+1/2) are dependency models validated by the same run. The association of high-level objects to axes (array_indices_for_world_objects) is covered by the oracle only (crop == crop_by_values == expected box).",
     technique="Coq proof over hand-written Gallina model + vm_compute correspondence check + direct oracle"),
+ "C10": dict(
+    category="proof",
+    text="Coq theorems over cubes of ANY size with exact rational payloads and units as (scale, integer exponents): C10_add / C10_add_number / C10_add_keeps / C10_neg_keeps (after conversion to the cube's unit physical values add; unit, uncertainty, mask, coordinates and meta kept), C10_refuse_units / C10_refuse_bare / C10_refuse_other (inconvertible units, a bare number on a cube with a unit, a second cube or NDData on every operator), C10_mul_quantity / C10_mul_number / C10_mul_uncertainty / C10_mul_keeps (physical values multiply, dimensions add, a standard deviation scales by |k|), C10_pow, C10_to / C10_to_uncertainty (to(unit) preserves every physical value and the physical size of a standard deviation), C10_add_sub, C10_mul_div, C10_neg_neg, C10_mul_minus_one (the four identities, uncertainties included). Tied to /repo by an exact correspondence check over float / int / dask payloads of dyadic values, eight units (None, '', scaled dimensionless, m, 2 m, m/4, s, ct), five uncertainty kinds, masks, numbers / broadcast arrays / scalar and array Quantities / NDCube / NDData operands, all ten operators + ** + to(), plus a direct astropy oracle (incl. SI units with a tolerance, the identities, carried wcs / extra / global coords / meta).",
+    design_ref="DESIGN.md §5.10",
+    note="Trusted: Coq kernel + VM; Model/M_Arith.v transcription; astropy's unit algebra and numpy broadcasting are dependencies (the harness broadcasts the operand before the model sees it); the uncertainty of a power is not part of the property and is not compared; fractional exponents are checked by the direct oracle only.",
+    technique="Coq proof over hand-written Gallina model + vm_compute correspondence check"),
  "C17": dict(
     category="proof",
     text="Coq theorems for ANY number of cubes sharing one coordinate structure: C17_structure (common_axis_coords = one entry per coordinate object with a component on the common axis, each the concatenation in cube order of the object's slices along the common axis; includes the alignment of array_indices_for_world_objects with axis_world_coords), C17_length (as many entries as the cube-like length, ragged lengths included), C17_kth (entry k = cube j's coordinate at position i, (j,i) located by C12's index arithmetic), C17_entry (every entry of that slice is the WCS value at the pixel whose common-axis coordinate is i, whichever dimension of the coordinate array the common axis is), C17_sequence_axis_sound/complete (exactly the names on every cube, per-cube values in order). Tied to /repo by an exact correspondence check on sequences of 1-4 cubes over integer probe WCS with random correlation structures, grouped objects, linear extra coords, ragged common axes on any cube axis, user-added and slicing-produced global coords, plus a direct full-grid oracle incl. FITS TAN / rotated families.",
